@@ -594,7 +594,7 @@ func runLedger(c *Case, dir string, rep *hlib.Report) []LOut {
 					}
 				}
 				// a due claim by the owner must succeed
-				if rf := ref[k]; cl.Mode == 0 && rf != nil && rf.bal.Sign() > 0 && cl.Gas >= cl.EtxGas && validOwner(cl.Caller) &&
+				if rf := ref[k]; (cl.Mode == 0 || cl.Mode == 2) && rf != nil && rf.bal.Sign() > 0 && cl.Gas >= cl.EtxGas && validOwner(cl.Caller) &&
 					cl.Miner[0] == 0 && (cl.Miner[1] > 127) == (cl.To[1] > 127) && pre.Unlock != 0 && uint64(pre.Unlock) <= cl.Height && cl.Epoch < latest {
 					if pre.Elems == 0 {
 						fail("C13/ledger/due-claim-refused/elements-counter-wrapped",
@@ -1026,6 +1026,25 @@ func runRedeem(c *Case, dir string, rep *hlib.Report) redeemOut {
 	}()
 	rep.Count(fmt.Sprintf("redeem/class%d", out.cls))
 	if out.cls != 0 {
+		// monitor: with every target block present and only in-zone recipients / valid lock bytes the scan must succeed
+		clean := true
+		have := map[uint64]bool{}
+		for _, b := range in.Blocks {
+			have[b.Number] = true
+			for _, x := range b.Etxs {
+				if x.To[1] <= 127 && (x.To[0] != 0 || (x.Kind == 0 && len(x.Data) == 33 && x.Data[0] > 3)) {
+					clean = false
+				}
+			}
+		}
+		for _, d := range params.LockupByteToBlockDepth {
+			if in.Height > d && !have[in.Height-d] {
+				clean = false
+			}
+		}
+		if clean {
+			rep.Fail("C13/redeem/refused-on-complete-chain", fmt.Sprintf("height %d: RedeemLockedQuai failed (class %d) although every block at height-depth is present and well formed", in.Height, out.cls), c)
+		}
 		return out
 	}
 	for _, u := range unlocks {
@@ -1046,7 +1065,12 @@ func runRedeem(c *Case, dir string, rep *hlib.Report) redeemOut {
 		exist[k] = v
 	}
 	var want []RAcct
-	for lbd, d := range params.LockupByteToBlockDepth {
+	seenDepth := map[uint64]bool{}
+	for _, d := range params.LockupByteToBlockDepth {
+		if seenDepth[d] { // each ETX has ONE unlock height: a depth listed twice must not pay twice
+			continue
+		}
+		seenDepth[d] = true
 		for _, b := range in.Blocks {
 			if b.Number+d != in.Height {
 				continue
@@ -1058,7 +1082,7 @@ func runRedeem(c *Case, dir string, rep *hlib.Report) redeemOut {
 				var amt *big.Int
 				v, _ := new(big.Int).SetString(x.Value, 10)
 				switch {
-				case x.Kind == 0 && len(x.Data) == 33 && int(x.Data[0]) == lbd:
+				case x.Kind == 0 && len(x.Data) == 33 && x.Data[0] <= 3 && params.LockupByteToBlockDepth[x.Data[0]] == d:
 					amt = params.CalculateCoinbaseValueWithLockup(v, x.Data[0], in.Height)
 				case x.Kind == 1 && d == params.ConversionLockPeriod:
 					amt = v
